@@ -1,5 +1,5 @@
 SPECIFICATION Spec
-CONSTANTS G = 4  MaxV = 3  XLeft = 0  YDown = 8  UseMin = FALSE  MaxHits = 99  Margin = "range"  BothOrders = TRUE
+CONSTANTS G = 4  MaxV = 3  XLeft = 0  YDown = 8  UseMin = FALSE  MaxHits = 99  Algo = "probe_range"  BothOrders = TRUE
 CHECK_DEADLOCK FALSE
 INVARIANT NoError
 INVARIANT DesignHolds
